@@ -59,7 +59,9 @@ Compute ==
              LET h == first IN
              res' = [t |-> "c3e", h |-> h, p |-> p, on |-> PointOnHyper(p, h),
                      perp |-> Primitive(PlueckerOfPoints(p, NormalPt(h))), par |-> Primitive(ParHyper(h, p)),
-                     foot |-> Primitive(FootPH(p, h)), mir |-> Primitive(MirrorPH(p, h))]
+                     foot |-> Primitive(FootPH(p, h)), mir |-> Primitive(MirrorPH(p, h)),
+                     \* the direction of p (the point at infinity with the same affine part) reflected in h
+                     mird |-> IF IsZeroV(AffPart(p)) THEN <<>> ELSE Primitive(MirrorPH(Homog(AffPart(p), 0), h))]
      \/ /\ task = "c3l"
         /\ \E b \in {x \in C3 : Keep(x, Stride)}, p \in {x \in Fin3 : Keep(x, 3)} :
              /\ b # first
@@ -117,6 +119,10 @@ Spec == Init /\ [][Next]_vars
 
 \* ---------------------------------------------------------------------------
 Done == pc = "done"
+\* reflecting a direction twice gives it back, and its reflection is again a direction
+DirectionMirror == (Done /\ res.t = "c3e" /\ res.mird # <<>>) =>
+   /\ W(res.mird) = 0
+   /\ SameClass(MirrorPH(res.mird, res.h), Homog(AffPart(res.p), 0))
 HyperLaws == (Done /\ res.t \in {"c2", "c3e"}) =>
    LET h == res.h p == res.p f == res.foot m == res.mir n == NormalOf(h) IN
    /\ PointOnHyper(f, h)                                                            \* projection lies on s
